@@ -19,8 +19,6 @@ use vharness::*;
 use vibesql_storage::Database;
 use vibesql_types::SqlValue as V;
 
-const SIG_ZERO_COL: &str = "C20/zero-column-table-row-count-loop";
-const SIG_WHEN_DEPTH: &str = "C20/trigger-when-expression-unbounded-recursion";
 const SIG_SQL_PREVIEW: &str = "C20/sql-dump-error-preview-slices-inside-character";
 
 // ------------------------------------------------------------------------------------ worker
@@ -76,10 +74,72 @@ fn digest(db: &Database) -> String {
     let mut idx: Vec<String> = db
         .list_indexes()
         .iter()
-        .filter_map(|i| db.get_index(i).map(|m| format!("{}@{}:{}:{}", i.to_uppercase(), m.table_name.to_uppercase(), m.unique as u8, m.columns.iter().map(|c| format!("{}{}", c.column_name.to_uppercase(), if matches!(c.direction, vibesql_ast::OrderDirection::Desc) { "-" } else { "+" })).collect::<Vec<_>>().join(","))))
+        .filter_map(|i| db.get_index(i).map(|m| format!("{}@{}:{}:{}", i.to_uppercase(), m.table_name.to_uppercase(), m.unique as u8, m.columns.iter().map(|c| format!("{}{}{}", c.column_name.to_uppercase(), if matches!(c.direction, vibesql_ast::OrderDirection::Desc) { "-" } else { "+" }, c.prefix_length.map(|p| p.to_string()).unwrap_or_else(|| "none".into()))).collect::<Vec<_>>().join(","))))
         .collect();
     idx.sort();
-    format!("{}#{}", out.join("\n").replace('\n', "&"), idx.join("&"))
+    let mut trg: Vec<String> = db
+        .catalog
+        .list_triggers()
+        .iter()
+        .filter_map(|n| db.catalog.get_trigger(n))
+        .map(|t| format!("{}@{}:{}", t.name.to_uppercase(), t.table_name.to_uppercase(), t.when_condition.as_ref().map(|e| { let (n, d) = ex_info(e); format!("{}:{}", n, d) }).unwrap_or_else(|| "none".into())))
+        .collect();
+    trg.sort();
+    format!("{}#{}#{}", out.join("\n").replace('\n', "&"), idx.join("&"), trg.join("&"))
+}
+
+/// (number of expression nodes, nesting depth) — same counting as `ExInfo` in Model/BinCodec.lean
+fn ex_info(e: &vibesql_ast::Expression) -> (u64, u64) {
+    use vibesql_ast::{Expression as E, FrameBound, WindowFunctionSpec};
+    let mut kids: Vec<&E> = vec![];
+    match e {
+        E::BinaryOp { left, right, .. } => kids.extend([left.as_ref(), right.as_ref()]),
+        E::UnaryOp { expr, .. } | E::IsNull { expr, .. } | E::Cast { expr, .. } => kids.push(expr),
+        E::Function { args, .. } | E::AggregateFunction { args, .. } => kids.extend(args.iter()),
+        E::Case { operand, when_clauses, else_result } => {
+            kids.extend(operand.iter().map(|b| b.as_ref()));
+            for w in when_clauses {
+                kids.extend(w.conditions.iter());
+                kids.push(&w.result);
+            }
+            kids.extend(else_result.iter().map(|b| b.as_ref()));
+        }
+        E::InList { expr, values, .. } => {
+            kids.push(expr);
+            kids.extend(values.iter());
+        }
+        E::Between { expr, low, high, .. } => kids.extend([expr.as_ref(), low.as_ref(), high.as_ref()]),
+        E::Position { substring, string, .. } => kids.extend([substring.as_ref(), string.as_ref()]),
+        E::Trim { removal_char, string, .. } => {
+            kids.extend(removal_char.iter().map(|b| b.as_ref()));
+            kids.push(string);
+        }
+        E::Like { expr, pattern, .. } => kids.extend([expr.as_ref(), pattern.as_ref()]),
+        E::Interval { value, .. } => kids.push(value),
+        E::MatchAgainst { search_modifier, .. } => kids.push(search_modifier),
+        E::WindowFunction { function, over } => {
+            match function {
+                WindowFunctionSpec::Aggregate { args, .. } | WindowFunctionSpec::Ranking { args, .. } | WindowFunctionSpec::Value { args, .. } => kids.extend(args.iter()),
+            }
+            kids.extend(over.partition_by.iter().flatten());
+            if let Some(f) = &over.frame {
+                for b in std::iter::once(&f.start).chain(f.end.iter()) {
+                    if let FrameBound::Preceding(x) | FrameBound::Following(x) = b {
+                        kids.push(x);
+                    }
+                }
+            }
+        }
+        _ => {}
+    }
+    let mut nodes = 1;
+    let mut depth = 0;
+    for k in kids {
+        let (n, d) = ex_info(k);
+        nodes += n;
+        depth = depth.max(d);
+    }
+    (nodes, depth + 1)
 }
 
 fn worker() {
@@ -271,11 +331,21 @@ fn model_digest(reply: &Sx) -> Option<String> {
     let mut idx = vec![];
     for i in sect("indexes")? {
         let i = i.as_list()?;
-        let cols: Option<Vec<String>> = i[3..].iter().map(|c| c.as_list().and_then(|c| Some(format!("{}{}", s(&c[0])?, if c[1].as_atom()? == "1" { "-" } else { "+" })))).collect();
+        let cols: Option<Vec<String>> = i[3..].iter().map(|c| c.as_list().and_then(|c| Some(format!("{}{}{}", s(&c[0])?, if c[1].as_atom()? == "1" { "-" } else { "+" }, c.get(2)?.as_atom()?)))).collect();
         idx.push(format!("{}@{}:{}:{}", s(&i[0])?, s(&i[1])?, i[2].as_atom()?, cols?.join(",")));
     }
     idx.sort();
-    Some(format!("{}#{}", out.join("&"), idx.join("&")))
+    let mut trg = vec![];
+    for t in sect("triggers")? {
+        let t = t.as_list()?;
+        let when = match t.get(6)? {
+            Sx::Atom(a) => a.clone(),
+            Sx::List(v) => format!("{}:{}", v.first()?.as_atom()?, v.get(1)?.as_atom()?),
+        };
+        trg.push(format!("{}@{}:{}", s(&t[0])?, s(&t[1])?, when));
+    }
+    trg.sort();
+    Some(format!("{}#{}#{}", out.join("&"), idx.join("&"), trg.join("&")))
 }
 
 fn byte_level(msg: &str) -> Option<&'static str> {
@@ -286,6 +356,16 @@ fn byte_level(msg: &str) -> Option<&'static str> {
         Some("badutf8")
     } else if msg.contains("Unknown type tag") {
         Some("badtag")
+    } else if msg.contains("Unknown expression tag") {
+        Some("badexprtag")
+    } else if msg.contains("Unknown ") && msg.contains(" tag: ") {
+        Some("badenum")
+    } else if msg.contains("not yet implemented") || msg.contains("not yet supported") {
+        Some("notimplemented")
+    } else if msg.contains("Expression nesting exceeds") {
+        Some("depthexceeded")
+    } else if msg.contains("Invalid table data") {
+        Some("zerocolumnrows")
     } else if msg.contains("Invalid sort direction") {
         Some("baddirection")
     } else if msg.contains("Invalid file format") {
@@ -364,7 +444,7 @@ fn binary_case(cx: &mut Ctx, rep: &mut Report, kind: &str, bytes: &[u8], origin:
                 // shape = everything but the cell values (a value whose tag no longer matches the
                 // column type is coerced by Table::insert, e.g. a VARCHAR cell in a DATE column)
                 let shape = |x: &str| -> String {
-                    let (tabs, idx) = x.split_once('#').unwrap_or((x, ""));
+                    let (tabs, idx) = x.split_once('#').unwrap_or((x, "")); // idx = indexes#triggers
                     let t: Vec<String> = tabs.split('&').map(|t| { let p: Vec<&str> = t.splitn(3, '|').collect(); format!("{}|{}|{}", p.first().unwrap_or(&""), p.get(1).unwrap_or(&""), p.get(2).map(|r| if r.is_empty() { 0 } else { r.split(';').count() }).unwrap_or(0)) }).collect();
                     format!("{}#{}", t.join("&"), idx)
                 };
@@ -481,7 +561,8 @@ fn main() {
     f.extend_from_slice(&wstr("T"));
     f.extend_from_slice(&u64::MAX.to_le_bytes());
     binary_case(&mut cx, &mut rep, "crafted", &f, "row count ff..ff, no rows");
-    // P4 zero-column table with a huge row count: rows consume no input (C20_zero_column_rows_consume_nothing)
+    // P4 zero-column table with a huge row count: rows consume no input; the repaired loader must
+    //    reject the data block (model: C20_zero_column_data_rejected) — a time-out here is a violation
     {
         let mut f = header();
         f.extend_from_slice(&le32(0));
@@ -492,36 +573,42 @@ fn main() {
         f.extend_from_slice(&le32(0));
         f.extend_from_slice(&le32(0));
         f.extend_from_slice(&wstr("Z"));
-        f.extend_from_slice(&u64::MAX.to_le_bytes());
-        cx.n += 1;
-        let path = cx.dir.join("zero.vbsql");
-        std::fs::write(&path, &f).unwrap();
-        let out = cx.w.load("binary", &path);
-        rep.case("crafted zero-column", true);
-        rep.count(&format!("binary_crafted_zero_column_{}", out.class()));
-        if !out.clean() {
-            rep.fail(FailKind::Oracle, Some(SIG_ZERO_COL), &format!("load_binary: {} on a 59-byte file declaring a table without columns and 2^64-1 rows", out.class()), &format!("file bytes (hex): {}\noutcome: {:?}", hex(&f), out));
+        let base = f.clone();
+        for n in [u64::MAX, 1, 1 << 40] {
+            let mut f = base.clone();
+            f.extend_from_slice(&n.to_le_bytes());
+            binary_case(&mut cx, &mut rep, "crafted_zero_column", &f, &format!("table Z without columns, data block claiming {} rows", n));
         }
+        let mut f = base.clone();
+        f.extend_from_slice(&0u64.to_le_bytes());
+        binary_case(&mut cx, &mut rep, "crafted_zero_column", &f, "table Z without columns, 0 rows (loads)");
     }
-    // P5 trigger with a deeply nested WHEN expression (IsNull tag 06 repeated): recursion depth = file size
+    // P5 trigger WHEN nested beyond the reader's bound: an error (model: C20_probe_400000_nested), never
+    //    a stack overflow; and the boundary itself: 41 levels load, 42 do not
     {
-        let mut f = header();
+        let mut pre = header();
         for _ in 0..4 {
-            f.extend_from_slice(&le32(0));
+            pre.extend_from_slice(&le32(0));
         }
-        f.extend_from_slice(&le32(1));
-        f.extend_from_slice(&wstr("TR"));
-        f.extend_from_slice(&wstr("T"));
-        f.extend_from_slice(&[1, 0, 0, 1]);
-        f.extend(std::iter::repeat(0x06u8).take(400_000));
-        cx.n += 1;
-        let path = cx.dir.join("when.vbsql");
-        std::fs::write(&path, &f).unwrap();
-        let out = cx.w.load("binary", &path);
-        rep.case("crafted when-depth", true);
-        rep.count(&format!("binary_crafted_when_depth_{}", out.class()));
-        if !out.clean() {
-            rep.fail(FailKind::Oracle, Some(SIG_WHEN_DEPTH), &format!("load_binary: {} on a trigger WHEN expression nested 400000 deep", out.class()), &format!("file: header, 4 zero counts, trigger count 1, name TR, table T, timing 1, event 0, granularity 0, has_when 1, then 400000 bytes 06 (IsNull)\noutcome: {:?}", out));
+        pre.extend_from_slice(&le32(1));
+        pre.extend_from_slice(&wstr("TR"));
+        pre.extend_from_slice(&wstr("T"));
+        pre.extend_from_slice(&[1, 0, 0, 1]);
+        for (n, tag) in [(400_000usize, 0x06u8), (400_000, 0x03), (42, 0x06), (41, 0x06), (40, 0x06), (1, 0x06)] {
+            let mut f = pre.clone();
+            for _ in 0..n {
+                f.push(tag);
+                if tag == 0x03 {
+                    f.push(0); // unary operator NOT
+                }
+            }
+            f.push(0x07); // Wildcard
+            if tag == 0x06 {
+                f.extend(std::iter::repeat(0u8).take(n)); // `negated` of each IsNull
+            }
+            f.push(0); // action type
+            f.extend_from_slice(&wstr("SELECT 1"));
+            binary_case(&mut cx, &mut rep, "crafted_when_depth", &f, &format!("trigger WHEN = {} nested expression tags {:02x} around a wildcard", n, tag));
         }
     }
     // P5b SQL dump: a failing statement longer than 100 bytes with a multi-byte character across byte 100
@@ -908,6 +995,145 @@ fn main() {
                         let q = sql.replacen(ty, w, 1);
                         other_case(&mut cx, &mut rep, "sql", "sql", "type_dictionary", q.as_bytes(), &format!("SQL dump column type {} replaced by {:?}", ty, w));
                     }
+                }
+            }
+        }
+    }
+    // ---- triggers with WHEN conditions: every expression tag, counts / tags / flags corrupted ----------
+    {
+        use vibesql_ast::{
+            BinaryOperator as B, CaseWhen, CharacterUnit, Expression as E, FrameBound, FrameUnit, FulltextMode, IntervalUnit, PseudoTable, TrimPosition, UnaryOperator as U,
+            WindowFrame, WindowFunctionSpec, WindowSpec,
+        };
+        let lit = |i: i64| E::Literal(V::Integer(i));
+        let st = |x: &str| E::Literal(V::Varchar(x.into()));
+        let col = |c: &str| E::ColumnRef { table: Some("T".into()), column: c.into() };
+        let bx = |e: E| Box::new(e);
+        let and = |a: E, b: E| E::BinaryOp { op: B::And, left: Box::new(a), right: Box::new(b) };
+        let whens: Vec<(&str, E)> = vec![
+            (
+                "function/aggregate/operators",
+                and(
+                    E::BinaryOp { op: B::GreaterThan, left: bx(E::Function { name: "UPPER".into(), args: vec![col("S"), lit(1), st("é")], character_unit: Some(CharacterUnit::Characters) }), right: bx(st("x")) },
+                    and(
+                        E::UnaryOp { op: U::Not, expr: bx(E::IsNull { expr: bx(col("A")), negated: true }) },
+                        E::BinaryOp { op: B::Equal, left: bx(E::AggregateFunction { name: "COUNT".into(), distinct: true, args: vec![E::Wildcard] }), right: bx(E::Function { name: "F0".into(), args: vec![], character_unit: None }) },
+                    ),
+                ),
+            ),
+            (
+                "case/inlist/between",
+                and(
+                    E::Case {
+                        operand: Some(bx(col("A"))),
+                        when_clauses: vec![CaseWhen { conditions: vec![lit(1), lit(2)], result: E::Literal(V::Boolean(true)) }, CaseWhen { conditions: vec![lit(3)], result: E::Literal(V::Null) }],
+                        else_result: Some(bx(E::Literal(V::Boolean(false)))),
+                    },
+                    and(
+                        E::InList { expr: bx(col("A")), values: vec![lit(1), lit(-2), E::Literal(V::Double(1.5))], negated: true },
+                        E::Between { expr: bx(col("A")), low: bx(lit(0)), high: bx(lit(9)), negated: false, symmetric: true },
+                    ),
+                ),
+            ),
+            (
+                "cast/position/trim/like",
+                and(
+                    E::Like { expr: bx(E::Cast { expr: bx(col("A")), data_type: vibesql_types::DataType::Varchar { max_length: Some(40) } }), pattern: bx(st("a%")), negated: false },
+                    and(
+                        E::BinaryOp { op: B::LessThan, left: bx(E::Position { substring: bx(st("b")), string: bx(col("S")), character_unit: Some(CharacterUnit::Octets) }), right: bx(E::Cast { expr: bx(lit(1)), data_type: vibesql_types::DataType::Numeric { precision: 10, scale: 2 } }) },
+                        E::BinaryOp { op: B::Equal, left: bx(E::Trim { position: Some(TrimPosition::Leading), removal_char: Some(bx(st(" "))), string: bx(col("S")) }), right: bx(E::Trim { position: None, removal_char: None, string: bx(col("S")) }) },
+                    ),
+                ),
+            ),
+            (
+                "current/interval/leaves",
+                and(
+                    E::BinaryOp { op: B::LessThan, left: bx(E::CurrentDate), right: bx(E::BinaryOp { op: B::Plus, left: bx(E::CurrentTimestamp { precision: None }), right: bx(E::Interval { value: bx(lit(5)), unit: IntervalUnit::Day, leading_precision: Some(2), fractional_precision: Some(6) }) }) },
+                    and(
+                        E::BinaryOp { op: B::NotEqual, left: bx(E::CurrentTime { precision: Some(3) }), right: bx(E::Default) },
+                        E::BinaryOp {
+                            op: B::Concat,
+                            left: bx(E::BinaryOp { op: B::Concat, left: bx(E::DuplicateKeyValue { column: "A".into() }), right: bx(E::NextValue { sequence_name: "SEQ".into() }) }),
+                            right: bx(E::BinaryOp { op: B::Concat, left: bx(E::SessionVariable { name: "v".into() }), right: bx(E::PseudoVariable { pseudo_table: PseudoTable::New, column: "A".into() }) }),
+                        },
+                    ),
+                ),
+            ),
+            (
+                "match/window",
+                and(
+                    E::MatchAgainst { columns: vec!["S".into(), "A".into()], search_modifier: bx(st("word")), mode: FulltextMode::Boolean },
+                    E::BinaryOp {
+                        op: B::GreaterThan,
+                        left: bx(E::WindowFunction {
+                            function: WindowFunctionSpec::Aggregate { name: "SUM".into(), args: vec![col("A")] },
+                            over: WindowSpec { partition_by: Some(vec![col("S"), col("A")]), order_by: None, frame: Some(WindowFrame { unit: FrameUnit::Rows, start: FrameBound::Preceding(bx(lit(1))), end: Some(FrameBound::Following(bx(lit(2)))) }) },
+                        }),
+                        right: bx(E::WindowFunction { function: WindowFunctionSpec::Ranking { name: "RANK".into(), args: vec![] }, over: WindowSpec { partition_by: None, order_by: None, frame: None } }),
+                    },
+                ),
+            ),
+        ];
+        let quick = args.quick();
+        rep.add("trigger_when_fixtures", whens.len() as u64);
+        for (wi, (what, when)) in whens.iter().enumerate() {
+            let mut db = Database::new();
+            let cols = vec![
+                vibesql_catalog::ColumnSchema { name: "A".into(), data_type: vibesql_types::DataType::Integer, nullable: true, default_value: None },
+                vibesql_catalog::ColumnSchema { name: "S".into(), data_type: vibesql_types::DataType::Varchar { max_length: None }, nullable: true, default_value: None },
+            ];
+            let _ = db.create_table(vibesql_catalog::TableSchema::new("T".to_string(), cols));
+            let trig = vibesql_catalog::TriggerDefinition::new(
+                format!("TR{}", wi),
+                vibesql_ast::TriggerTiming::After,
+                if wi % 2 == 0 { vibesql_ast::TriggerEvent::Update(Some(vec!["A".into(), "S".into()])) } else { vibesql_ast::TriggerEvent::Insert },
+                "T".to_string(),
+                vibesql_ast::TriggerGranularity::Row,
+                Some(Box::new(when.clone())),
+                vibesql_ast::TriggerAction::RawSql("INSERT INTO T VALUES (1, 'x')".into()),
+            );
+            if let Err(e) = db.catalog.create_trigger(trig) {
+                rep.fail(FailKind::Oracle, None, "cannot create the trigger fixture", &format!("{:?}", e));
+                continue;
+            }
+            let p = cx.dir.join("trig.vbsql");
+            if let Err(e) = db.save_binary(&p) {
+                rep.fail(FailKind::Oracle, None, "save_binary of a database with a trigger WHEN condition failed", &format!("{}: {:?}", what, e));
+                continue;
+            }
+            let bytes = std::fs::read(&p).unwrap_or_default();
+            let origin = format!("trigger fixture '{}': table T(A INTEGER, S VARCHAR), AFTER trigger TR{} with WHEN {:?}", what, wi, when);
+            binary_case(&mut cx, &mut rep, "valid", &bytes, &origin);
+            // where the trigger section is
+            let sec = cx.m.ask(&format!("sections {}", hex(&bytes)));
+            let offs: Vec<usize> = Sx::parse(&sec).and_then(|s| s.as_list().map(|l| l[1..].iter().filter_map(|x| x.as_atom().and_then(|a| a.parse().ok())).collect())).unwrap_or_default();
+            if offs.len() != 6 {
+                rep.fail(FailKind::ModelDiff, None, "the model cannot read the catalog of a file with a trigger WHEN condition written by save_binary", &format!("{}\nfile: {}\nmodel: {}", origin, hex(&bytes), sec));
+                continue;
+            }
+            let (lo, hi) = (offs[4], offs[5]);
+            rep.add("trigger_section_bytes", (hi - lo) as u64);
+            // every truncation point inside the trigger section
+            for cut in lo..hi {
+                if quick && cut % 2 == 1 {
+                    continue;
+                }
+                binary_case(&mut cx, &mut rep, "trigger_truncated", &bytes[..cut], &format!("{}\ntruncated to {} of {} bytes", origin, cut, bytes.len()));
+            }
+            // every byte of the trigger section × a substitution set (ff always: counts become huge)
+            for i in lo..hi {
+                let orig = bytes[i];
+                let all = [0xffu8, 0x7f, 0, 1, 2, 5, 0x1e, orig.wrapping_add(1), orig ^ 1, orig ^ 0x80];
+                let mut subs: Vec<u8> = if quick { vec![0xff, all[1 + i % 9], all[1 + (i / 3 + 4) % 9]] } else { all.to_vec() };
+                subs.sort();
+                subs.dedup();
+                for sb in subs {
+                    if sb == orig {
+                        continue;
+                    }
+                    let mut b = bytes.clone();
+                    b[i] = sb;
+                    binary_case(&mut cx, &mut rep, "trigger_subst", &b, &format!("{}\nbyte {} (trigger section {}..{}) {:02x} -> {:02x}", origin, i, lo, hi, orig, sb));
                 }
             }
         }
